@@ -303,6 +303,24 @@ static void runNonPositive(const Case &c, const std::string &ctx)
   vh::count("calls_nonpositive_n");
 }
 
+// a task given as a named object that keeps its own record (mutable members behind the const call operator the API
+// asks for): the caller reads that record after the call, so the loop has to have run on THIS object
+template <typename I>
+struct RecordingTask
+{
+  Mon *m;
+  mutable std::atomic<long> calls;
+  mutable std::atomic<long long> sum;
+  explicit RecordingTask(Mon *m_) : m(m_), calls(0), sum(0) {}
+  RecordingTask(const RecordingTask &o) : m(o.m), calls(o.calls.load()), sum(o.sum.load()) {}
+  void operator()(I i) const
+  {
+    calls.fetch_add(1, std::memory_order_relaxed);
+    sum.fetch_add((long long)i, std::memory_order_relaxed);
+    m->body((long long)i);
+  }
+};
+
 template <typename I>
 static void runPF(const Case &c, const std::string &ctx, uint64_t cs)
 {
@@ -317,6 +335,17 @@ static void runPF(const Case &c, const std::string &ctx, uint64_t cs)
   const int early       = VH_C01_EARLY_EXIT ? c.early : 0;
   const long long where = (long long)(cs % (uint64_t)c.n);
   bool threw            = false;
+  if (!early && cs % 3 == 0) {
+    RecordingTask<I> task(&m);
+    parallel_for(n, task);  // an lvalue
+    long long expSum = (long long)c.n * ((long long)c.n - 1) / 2;
+    if (task.calls.load() != (long)c.n || task.sum.load() != expSum)
+      vh::violation("C01:parallel_for:effects-on-the-task-object-not-visible", "the task object the caller passed recorded " + std::to_string(task.calls.load()) + " invocations (index sum " + std::to_string(task.sum.load()) +
+                                                                                   "), expected " + std::to_string(c.n) + " (" + std::to_string(expSum) + ")", ctx);
+    vh::count("loops_with_named_task_object");
+    m.judge("parallel_for", ctx, (long)c.n, c.grace);
+    return;
+  }
   try {
     // one call site (one closure type per index type) for the loops that end early and the ones that must be exact
     parallel_for(n, [&](I i) {
